@@ -16,7 +16,7 @@ RULE = (
     "case = state-machine history on a recipe-built element or model class: steps are reconfigurations "
     "(assign a keyword attribute incl. back to NotPassed; assign an element-valued keyword; reassign "
     ".properties; .properties[name] = Property(...); del .properties[name]; .properties.pop(name); "
-    ".properties[name].required = flag) on any node of the tree, "
+    ".properties[name].required = flag; .properties.update({...}) / setdefault) on any node of the tree, "
     "interleaved with validate(value aimed at the current schema); after each validate the real "
     "object must agree (verdict kind and read-back result) with an element freshly built from the "
     "model configuration; non-trivial = history with a validate before and after a reconfiguration "
@@ -89,6 +89,29 @@ class Harness:
                 return []
             obj.properties = R._props({"props": copy.deepcopy(op["props"])}, self.env)
             node["props"] = copy.deepcopy(op["props"])
+        elif kind == "update_prop":
+            # dict API that bypasses __setitem__: properties.update({...}) / setdefault
+            if node["kind"] not in ("Element", "Object") or node.get("props") is None:
+                return []
+            if isinstance(obj.properties, NotPassed):
+                return []
+            p = op["prop"]
+            new = Property(
+                R._build(copy.deepcopy(p["element"]), self.env),
+                required=p.get("required", False),
+                **({"source": p["source"]} if p.get("source") is not None else {}),
+            )
+            names = [q["name"] for q in node["props"]]
+            if op.get("how") == "setdefault" and p["name"] not in names:
+                obj.properties.setdefault(p["name"], new)
+            else:
+                obj.properties.update({p["name"]: new})
+            for i, q in enumerate(node["props"]):
+                if q["name"] == p["name"]:
+                    node["props"][i] = copy.deepcopy(p)
+                    break
+            else:
+                node["props"].append(copy.deepcopy(p))
         elif kind == "put_prop":
             if node["kind"] not in ("Element", "Object") or node.get("props") is None:
                 return []
@@ -272,7 +295,11 @@ class Machine(RuleBasedStateMachine):
         for p in props[:1]:
             if self.h.duplicate_sources(idx[nid], p):
                 continue
-            self._do({"op": "put_prop", "node": nid, "prop": p})
+            how = data.draw(st.sampled_from(["item", "item", "update", "setdefault"]))
+            if how == "item":
+                self._do({"op": "put_prop", "node": nid, "prop": p})
+            else:
+                self._do({"op": "update_prop", "node": nid, "prop": p, "how": how})
         self._aimed_validate(data)
 
     @rule(data=st.data())
